@@ -1,6 +1,330 @@
 import PdeVerif.Json
-namespace PdeVerif.Drv.C14
-open Lean PdeVerif
+import PdeVerif.Model.Serialize
+/-
+Driver of the C14 model: every handler evaluates the definitions of `PdeVerif.Serialize` (the ones
+the theorems of `Props/C14.lean` are about) at `Rat` (mode "Q", exact) or `Float` (mode "F", the
+same IEEE operations in the same order as the package performs on the bounds).
 
-def handlers : List (String × Handler) := []
+Value trees travel as JSON: `null`, `true/false`, an integer number (`Val.nat`), a text "p/q" or
+"b:<bits>" (`Val.num`), `{"s": text}` (`Val.str`), an array (`Val.list`) and
+`{"o": [[key, value], ...]}` (`Val.obj`, key order kept).
+
+The data of fields travels as positions only: entry `i` of the array handed to the package is the
+atom `i`; an atom remembers whether a conversion to a real dtype was applied to it (`real`), `-1`
+stands for a zero written by the constructor.
+-/
+namespace PdeVerif.Drv.C14
+open Lean PdeVerif PdeVerif.Grids PdeVerif.Serialize
+
+/-- number codec of a mode -/
+structure Codec (K : Type) where
+  get : Json → Except String K
+  put : K → Json
+
+def codecQ : Codec Rat := ⟨getQ, jQ⟩
+def codecF : Codec Float := ⟨getF, jF⟩
+
+structure Atom where
+  id : Int
+  real : Bool
+
+instance : Inhabited Atom := ⟨⟨-1, false⟩⟩
+
+/-- numpy `astype`: converting to a real dtype drops an imaginary part; the values the harness
+uses are exactly representable in every dtype involved, so nothing else changes -/
+def castAtom (dt : DType) (a : Atom) : Atom := if dt.isComplex then a else { a with real := true }
+
+def jAtom (a : Atom) : Json := Json.arr #[toJson a.id, toJson a.real]
+
+def errName : Err → String
+  | .keyError => "KeyError" | .valueError => "ValueError" | .dimensionError => "DimensionError"
+  | .typeError => "TypeError" | .runtimeError => "RuntimeError" | .indexError => "IndexError"
+  | .assertionError => "AssertionError" | .attributeError => "AttributeError" | .unsupported => "unsupported"
+
+def clsTag : GridClass → String
+  | .unit => "unit" | .cartesian => "cartesian" | .polar => "polar"
+  | .spherical => "spherical" | .cylindrical => "cylindrical"
+
+def parseCls (s : String) : Except String GridClass :=
+  match s with
+  | "unit" => pure .unit
+  | "cartesian" => pure .cartesian
+  | "polar" => pure .polar
+  | "spherical" => pure .spherical
+  | "cylindrical" => pure .cylindrical
+  | _ => throw s!"unknown grid class {s}"
+
+def parseFCls (s : String) : Except String FieldClass :=
+  match s with
+  | "scalar" => pure .scalar
+  | "vector" => pure .vector
+  | "tensor2" => pure .tensor2
+  | _ => throw s!"unknown field class {s}"
+
+def fclsTag : FieldClass → String
+  | .scalar => "scalar" | .vector => "vector" | .tensor2 => "tensor2"
+
+def parseDType (s : String) : Except String DType :=
+  match DType.ofStr s with
+  | some d => pure d
+  | none => throw s!"unknown dtype {s}"
+
+def optStr (j : Json) (k : String) : Except String (Option String) :=
+  match fldOpt j k with
+  | none | some .null => pure none
+  | some (.str s) => pure (some s)
+  | some v => throw s!"expected string or null for {k}, got {v.compress}"
+
+def jOptStr : Option String → Json
+  | none => Json.null
+  | some s => Json.str s
+
+section
+variable {K : Type} (cd : Codec K)
+
+partial def getVal (j : Json) : Except String (Val K) :=
+  match j with
+  | .null => pure .null
+  | .bool b => pure (.bool b)
+  | .num _ => do pure (.nat (← j.getNat?))
+  | .str _ => do pure (.num (← cd.get j))
+  | .arr a => do pure (.list (← a.toList.mapM getVal))
+  | .obj _ =>
+    match j.getObjVal? "s" with
+    | .ok (.str s) => pure (.str s)
+    | _ =>
+      match j.getObjVal? "o" with
+      | .ok (.arr a) => do
+        let kv ← a.toList.mapM fun e => match e with
+          | .arr #[.str k, v] => do pure (k, ← getVal v)
+          | _ => throw s!"bad object entry {e.compress}"
+        pure (.obj kv)
+      | _ => throw s!"bad value {j.compress}"
+
+partial def putVal (v : Val K) : Json :=
+  match v with
+  | .null => Json.null
+  | .bool b => Json.bool b
+  | .nat n => toJson n
+  | .num x => cd.put x
+  | .str s => Json.mkObj [("s", Json.str s)]
+  | .list l => Json.arr (l.map putVal).toArray
+  | .obj kv => Json.mkObj [("o", Json.arr (kv.map fun (k, v) => Json.arr #[Json.str k, putVal v]).toArray)]
+
+def putDict (d : Dict K) : Json := putVal cd (.obj d)
+
+variable [Add K] [Sub K] [Mul K] [Div K] [Neg K] [NatCast K] [IntCast K]
+variable [LT K] [DecidableLT K] [BEq K]
+
+/-- canonical record of a grid object -/
+def jObj (g : GridObj K) : Json :=
+  Json.mkObj [("cls", Json.str (clsTag g.cls)),
+    ("bounds", Json.arr (g.axesBounds.map fun b => Json.arr #[cd.put b.1, cd.put b.2]).toArray),
+    ("shape", toJson g.shape), ("periodic", toJson g.periodic),
+    ("dim", toJson g.dim), ("num_axes", toJson g.numAxes)]
+
+def jRes {α : Type} (f : α → Json) : Except Err α → Json
+  | .ok a => Json.mkObj [("ok", f a)]
+  | .error e => Json.mkObj [("err", Json.str (errName e))]
+
+def argOr (a : Json) (k : String) : Except String (Val K) :=
+  match fldOpt a k with
+  | none => pure .null
+  | some v => getVal cd v
+
+/-- {"cls", "args": {...}} -> the constructor of the class on the given arguments -/
+def construct (j : Json) : Except String (Except Err (GridObj K)) := do
+  let cls ← parseCls (← fldS j "cls")
+  let a ← fld j "args"
+  match cls with
+  | .unit => pure (mkUnit (← argOr cd a "shape") (← argOr cd a "periodic"))
+  | .cartesian =>
+    pure (mkCartesian (← argOr cd a "bounds") (← argOr cd a "shape") (← argOr cd a "periodic"))
+  | .polar => pure (mkRadial false (← argOr cd a "radius") (← argOr cd a "shape"))
+  | .spherical => pure (mkRadial true (← argOr cd a "radius") (← argOr cd a "shape"))
+  | .cylindrical =>
+    pure (mkCylindrical (← argOr cd a "radius") (← argOr cd a "bounds_z") (← argOr cd a "shape")
+      (← argOr cd a "periodic_z"))
+
+/-- all multi-indices of a shape in C order -/
+def multiIndices : List Nat → List (List Nat)
+  | [] => [[]]
+  | n :: ns => (List.range n).flatMap fun i => (multiIndices ns).map (i :: ·)
+
+/-- construct a grid, then state / JSON tree / from_state / copy / equality / derived quantities -/
+def gridH (j : Json) : Except String Json := do
+  let r ← construct cd (← fld j "grid")
+  match r with
+  | .error e => pure (Json.mkObj [("err", Json.str (errName e))])
+  | .ok g =>
+    let derived : List (String × Json) ←
+      (match fldOpt j "pi" with
+      | none | some .null => pure []
+      | some p => do
+        let pi ← cd.get p
+        let gg := g.toGrid
+        pure [("dx", Json.arr (gg.discretization.map cd.put).toArray),
+          ("coords", Json.arr (gg.axesCoords.map fun l => Json.arr (l.map cd.put).toArray).toArray),
+          ("cellvols", Json.arr ((multiIndices gg.shape).map fun i => cd.put (gg.cellVolume pi i)).toArray),
+          ("volume", cd.put (gg.volume pi))])
+    let cp := g.copy
+    pure (Json.mkObj ([("obj", jObj cd g), ("class_name", Json.str (className g.cls)),
+      ("state", putDict cd g.state), ("json", putVal cd g.stateSerialized),
+      ("state_old_cyl", putDict cd (cylStateOld g)),
+      ("from_state", jRes (jObj cd) (classFromState g.cls g.state)),
+      ("from_json", jRes (jObj cd) (fromState g.stateSerialized)),
+      ("from_old_cyl", jRes (jObj cd) (classFromState g.cls (cylStateOld g))),
+      ("copy", jRes (jObj cd) cp),
+      ("copy_eq", match cp with | .ok c => toJson (gridEq c g && gridEq g c) | .error _ => Json.null)]
+      ++ derived))
+
+/-- {"tree": value, "via": "base" | class tag} -> from_state of an arbitrary (possibly malformed)
+tree -/
+def fromStateH (j : Json) : Except String Json := do
+  let t : Val K ← getVal cd (← fld j "tree")
+  let via ← fldS j "via"
+  if via == "base" then pure (jRes (jObj cd) (fromState t))
+  else
+    let cls ← parseCls via
+    match t with
+    | .obj d => pure (jRes (jObj cd) (classFromState cls d))
+    | _ => throw "tree must be an object"
+
+/-- {"a": grid spec, "b": grid spec} -> `a == b` -/
+def eqH (j : Json) : Except String Json := do
+  let a ← construct cd (← fld j "a")
+  let b ← construct cd (← fld j "b")
+  match a, b with
+  | .ok a, .ok b => pure (Json.mkObj [("eq", toJson (gridEq a b)), ("eq_rev", toJson (gridEq b a))])
+  | _, _ => throw "eq: grids must be valid"
+
+def mustGrid (j : Json) : Except String (GridObj K) := do
+  match ← construct cd j with
+  | .ok g => pure g
+  | .error e => throw s!"grid spec invalid in the model: {errName e}"
+
+def getFieldAttrs (j : Json) : Except String (FieldAttrs K) := do
+  pure ⟨← parseFCls (← fldS j "fcls"), ← mustGrid cd (← fld j "grid"), ← optStr j "label",
+    ← parseDType (← fldS j "dtype")⟩
+
+/-- tampering with a serialised dictionary (malformed stream): {"drop": key} | {"set": [key, value]} -/
+def tamper (d : Dict K) (j : Json) : Except String (Dict K) := do
+  match fldOpt j "tamper" with
+  | none | some .null => pure d
+  | some t =>
+    let d ← (match fldOpt t "drop" with
+      | some (.str k) => pure (erase k d)
+      | _ => pure d : Except String (Dict K))
+    match fldOpt t "set" with
+    | some (.arr #[.str k, v]) => do
+      let v ← getVal cd v
+      pure (if (lookup k d).isSome then d.map fun (k', v') => if k' = k then (k', v) else (k', v')
+            else d ++ [(k, v)])
+    | _ => pure d
+
+def atoms (n : Nat) : List Atom := (List.range n).map fun (i : Nat) => ⟨(i : Int), false⟩
+
+def dataArg (j : Json) : Except String (Option (List Atom)) :=
+  match fldOpt j "n" with
+  | none | some .null => pure none
+  | some v => do pure (some (atoms (← v.getNat?)))
+
+def jFieldObj (f : FieldObj K Atom) : Json :=
+  Json.mkObj [("fcls", Json.str (fclsTag f.attrs.cls)), ("grid", jObj cd f.attrs.grid),
+    ("label", jOptStr f.attrs.label), ("dtype", Json.str f.attrs.dtype.str),
+    ("data", Json.arr (f.data.map jAtom).toArray)]
+
+/-- one field: attributes_serialized -> unserialize_attributes -> from_state(attributes, data) -/
+def fieldH (j : Json) : Except String Json := do
+  let a ← getFieldAttrs cd (← fld j "field")
+  let ser ← tamper cd a.serialized j
+  let dd ← parseDType (← fldS j "data_dtype")
+  let data ← dataArg j
+  let res := do
+    let u ← unserializeField ser
+    fieldFromState castAtom u data dd
+  pure (Json.mkObj [("serialized", putDict cd ser), ("result", jRes (jFieldObj cd) res),
+    ("data_len", toJson (dataLen a.cls a.grid))])
+
+/-- a collection: attributes_serialized -> unserialize_attributes -> from_state(attributes, data) -/
+def collectionH (j : Json) : Except String Json := do
+  let fs ← (← (← fld j "fields").getArr?).toList.mapM (getFieldAttrs cd)
+  let a : CollAttrs K := ⟨← optStr j "label", ← parseDType (← fldS j "dtype"), fs⟩
+  let ser ← tamper cd a.serialized j
+  -- malformed stream: the class name of the last field replaced
+  let ser : Dict K := match fldOpt j "tamper_last_field_class" with
+    | some (.str name) => ser.map fun (k, v) =>
+      if k = "fields" then
+        match v with
+        | .list l =>
+          let n := l.length
+          (k, .list ((List.range n).zip l |>.map fun (i, f) =>
+            if i + 1 = n then
+              match f with
+              | .obj fd => .obj (fd.map fun (k', v') => if k' = "class" then (k', .str name) else (k', v'))
+              | x => x
+            else f))
+        | _ => (k, v)
+      else (k, v)
+    | _ => ser
+  let data ← dataArg j
+  let res := do
+    let u ← unserializeColl ser
+    collFromState castAtom u data
+  let jc (c : CollObj K Atom) : Json :=
+    Json.mkObj [("label", jOptStr c.label), ("dtype", Json.str c.dtype.str),
+      ("labels", Json.arr (c.labels.map jOptStr).toArray),
+      ("fields", Json.arr (c.fields.map (jFieldObj cd)).toArray)]
+  pure (Json.mkObj [("serialized", putDict cd ser), ("result", jRes jc res),
+    ("data_len", toJson ((fs.map fun f => dataLen f.cls f.grid).foldr (· + ·) 0))])
+
+/-- FieldCollection.from_data on `ncomp` component arrays -/
+def fromDataH (j : Json) : Except String Json := do
+  let g ← mustGrid cd (← fld j "grid")
+  let classes ← (← (← fld j "classes").getArr?).toList.mapM fun v => do parseFCls (← v.getStr?)
+  let ncomp ← fldN j "ncomp"
+  let wg ← fldB j "with_ghost"
+  let label ← optStr j "label"
+  let labels ← (match fldOpt j "labels" with
+    | none | some .null => pure none
+    | some (.arr a) => do
+      let l ← a.toList.mapM fun v => match v with
+        | .null => pure none
+        | .str s => pure (some s)
+        | _ => throw "bad label"
+      pure (some l)
+    | some _ => throw "bad labels" : Except String (Option (List (Option String))))
+  let dtype ← (match ← optStr j "dtype" with
+    | none => pure none
+    | some s => do pure (some (← parseDType s)) : Except String (Option DType))
+  let dd ← parseDType (← fldS j "data_dtype")
+  let old := (fldOpt j "old") == some (Json.bool true)
+  let res := (if old then fromDataOld else fromData) castAtom g classes (atoms ncomp) wg label labels dtype dd
+  let jc (c : DataColl Atom) : Json :=
+    Json.mkObj [("label", jOptStr c.label), ("dtype", Json.str c.dtype.str),
+      ("fields", Json.arr (c.fields.map fun (fc, l, comps) =>
+        Json.mkObj [("fcls", Json.str (fclsTag fc)), ("label", jOptStr l),
+          ("comps", Json.arr (comps.map jAtom).toArray)]).toArray)]
+  let sl : List (Nat × Nat) := match res with
+    | .ok c => c.slices
+    | .error _ => collSlices g.dim classes
+  pure (Json.mkObj [("result", jRes jc res),
+    ("slices", toJson (sl.map fun ((s, e) : Nat × Nat) => [s, e])),
+    ("slices_nominal", toJson ((collSlices g.dim classes).map fun ((s, e) : Nat × Nat) => [s, e])),
+    ("dim", toJson g.dim), ("num_axes", toJson g.numAxes)])
+
+end
+
+def dispatch (hq : Json → Except String Json) (hf : Json → Except String Json) : Handler := fun j => do
+  match fldOpt j "mode" with
+  | some (.str "F") => hf j
+  | _ => hq j
+
+def handlers : List (String × Handler) := [
+  ("c14.grid", dispatch (gridH codecQ) (gridH codecF)),
+  ("c14.fromstate", dispatch (fromStateH codecQ) (fromStateH codecF)),
+  ("c14.eq", dispatch (eqH codecQ) (eqH codecF)),
+  ("c14.field", dispatch (fieldH codecQ) (fieldH codecF)),
+  ("c14.collection", dispatch (collectionH codecQ) (collectionH codecF)),
+  ("c14.fromdata", dispatch (fromDataH codecQ) (fromDataH codecF))]
 end PdeVerif.Drv.C14
